@@ -231,7 +231,9 @@ def check_fork_script(code, kind, name, aliases, script):
 
 
 TEMPLATES = ['{n} {v} true', 'true if {{ {n} {v} }}', 'try {{ {n} {v} }}', 'true loop {{ {n} {v} pop0 false }}',
-             'def 0 {{ {n} {v} }}', 'if ( true ) {{ {n} {v} }} else {{ {n} {v} }}', 'push ~ {{ {n} {v} }} eval']
+             'def 0 {{ {n} {v} }}', 'if ( true ) {{ {n} {v} }} else {{ {n} {v} }}', 'push ~ {{ {n} {v} }} eval',
+             'op_push1 x0102 {n} {v} true', 'push2 x0102 {n} {v} true', 'true if {{ push1 x01 {n} {v} }}',
+             'def 1 {{ op_push1 x01 {n} {v} }}', 'true {n} {v} {n} {v}', '@= a [ x01 ] {n} {v}', 'true # c # {n} {v}']
 
 
 def _compile(src):
